@@ -114,9 +114,9 @@ def run(ctx):
                     if vf and f.self_adt == tree and vf[0] == store_field and (c.args[0].ty or '').startswith('&mut'):
                         bad_mut.append((f, c))
         for f, c in bad_mut:
-            ctx.add('POOL', f, 'pool-vector-mutated(%s)' % c.callee_name(), 'violation', 'the pool\'s vectors are mutated outside the pool module: %s' % c.callee_name(), PROPS_POOL, span_line(c, f.line))
+            ctx.add('POOL', f, 'pool-vector-mutated(%s)' % c.callee_name(), 'violation', 'the pool\'s vectors are mutated outside the pool module: %s (the reserved sentinel slot and the free/in-use partition are no longer protected)' % c.callee_name(), PROPS_POOL + ['C02'], span_line(c, f.line))
         if not bad_mut:
-            ctx.add('POOL', None, 'pool-encapsulated(%s)' % tree, 'ok', 'buffer and free list of %s are mutated only by the pool\'s own functions' % tree, PROPS_POOL)
+            ctx.add('POOL', None, 'pool-encapsulated(%s)' % tree, 'ok', 'buffer and free list of %s are mutated only by the pool\'s own functions (so the sentinel slot reserved at construction is never handed out)' % tree, PROPS_POOL + ['C02'])
         # ---- release pairing in the removal -------------------------------------------------
         check_release(ctx, prog, rem, r)
         # ---- growth -----------------------------------------------------------------------------
